@@ -169,7 +169,12 @@ func compositeTargets() []compositeTarget {
 		if d, err := pvss.NewDealer(suite, x, ed.Scalar().Pick(st), vp, 2); err == nil {
 			pd, _ := d.PlaintextDeal(1)
 			if raw, err := pd.Marshal(); err == nil {
-				ts = append(ts, compositeTarget{"pedersen.Deal.Unmarshal", raw, func(b []byte) { var dd pvss.Deal; _ = dd.Unmarshal(b, suite) }})
+				ts = append(ts, compositeTarget{"pedersen.Deal.Unmarshal", raw, func(b []byte) {
+					var dd pvss.Deal
+					if dd.Unmarshal(b, suite) == nil {
+						_, _ = dd.Marshal() // an accepted deal can be encoded again
+					}
+				}})
 			}
 			if enc, err := d.EncryptedDeal(1); err == nil {
 				ts = append(ts, compositeTarget{"pedersen.ProcessEncryptedDeal(cipher)", enc.Cipher, func(b []byte) {
@@ -184,7 +189,52 @@ func compositeTargets() []compositeTarget {
 		if d, err := rvss.NewDealer(suite, x, ed.Scalar().Pick(st), vp, 2); err == nil {
 			pd, _ := d.PlaintextDeal(1)
 			if raw, err := pd.Marshal(); err == nil {
-				ts = append(ts, compositeTarget{"rabin.Deal.Unmarshal", raw, func(b []byte) { var dd rvss.Deal; _ = dd.Unmarshal(b, suite) }})
+				ts = append(ts, compositeTarget{"rabin.Deal.Unmarshal", raw, func(b []byte) {
+					var dd rvss.Deal
+					if dd.Unmarshal(b, suite) == nil {
+						_, _ = dd.Marshal()
+					}
+				}})
+			}
+		}
+		// A (Byzantine) dealer sends a malformed PLAINTEXT deal through the genuine transport: signed
+		// ephemeral key + AEAD, sealed by the verif-tagged hook Dealer.SealDealBytes.  Verifier 0 matters:
+		// a decoded deal without share carries index 0.
+		for idx := 0; idx < 2; idx++ {
+			idx := idx
+			if d, err := pvss.NewDealer(suite, x, ed.Scalar().Pick(st), vp, 2); err == nil {
+				pd, _ := d.PlaintextDeal(idx)
+				if raw, err := pd.Marshal(); err == nil {
+					ts = append(ts, compositeTarget{fmt.Sprintf("pedersen.ProcessEncryptedDeal(plaintext,v%d)", idx), raw, func(b []byte) {
+						enc, err := d.SealDealBytes(idx, b)
+						if err != nil {
+							return
+						}
+						v, _ := pvss.NewVerifier(suite, vl[idx], X, vp)
+						if r, err := v.ProcessEncryptedDeal(enc); err == nil && r != nil {
+							_ = v.DealCertified()
+							v.SetTimeout()
+							_ = v.Deal()
+						}
+					}})
+				}
+			}
+			if d, err := rvss.NewDealer(suite, x, ed.Scalar().Pick(st), vp, 2); err == nil {
+				pd, _ := d.PlaintextDeal(idx)
+				if raw, err := pd.Marshal(); err == nil {
+					ts = append(ts, compositeTarget{fmt.Sprintf("rabin.ProcessEncryptedDeal(plaintext,v%d)", idx), raw, func(b []byte) {
+						enc, err := d.SealDealBytes(idx, b)
+						if err != nil {
+							return
+						}
+						v, _ := rvss.NewVerifier(suite, vl[idx], X, vp)
+						if r, err := v.ProcessEncryptedDeal(enc); err == nil && r != nil {
+							_ = v.DealCertified()
+							v.SetTimeout()
+							_ = v.Deal()
+						}
+					}})
+				}
 			}
 		}
 	}
